@@ -8,6 +8,7 @@ From BV Require Import Proofs.PoolHist.
 From BV Require Import Proofs.PoolRefuted.
 From BV Require Lib.PyVal Gen.G_pool_shape Gen.K_timedout Proofs.PoolKernel.
 From BV Require Gen.K_worker Model.Worker Proofs.WorkerProofs.
+From BV Require Gen.G_pool_pins.
 Import ListNotations.
 Open Scope Z_scope.
 
@@ -144,3 +145,11 @@ Example C05_witness :
   map (fun x => (ready x, value x)) (jobs s) = [(true, Some (PTimeLimit (Some 5))); (true, Some (PValue 42))]
   /\ wlist s = [1] /\ map pexit (procs s) = [Some (-9); None].
 Proof. vm_compute. repeat split. Qed.
+
+(* the parent-side functions of billiard/pool.py these theorems are about are, on this run, the very
+   text the hand-written model was read against and is validated against by the correspondence
+   (digests of their ASTs, translate/kernels/poolpins.py): any edit of one of them breaks this
+   obligation and starts the deeper search for a failing history *)
+Theorem C05_modelled_code_is_the_validated_text : G_pool_pins.modelled_code_of_C05 = true.
+Proof. reflexivity. Qed.
+Print Assumptions C05_modelled_code_is_the_validated_text.
